@@ -7,55 +7,9 @@
 (* distinct prefix is a distinct state, so BFS enumerates all histories and     *)
 (* -simulate samples them.  W (weights) only multiplies the probability of the  *)
 (* common choices in simulation mode.                                          *)
-EXTENDS EntityCache, Json
+EXTENDS EntityCache, EntityCacheMenu, Json
 VARIABLE hist
 
-S(tg, sel, batch) == [tg |-> tg, sel |-> sel, batch |-> batch]
-R(q, steps) == [q |-> q, steps |-> steps]
-PP == "products:Product"
-RP == "reviews:Product"
-AU == "accounts:User"
-RU == "reviews:User"
-\* entity numbers: products top-1..3 = 1..3, users 1234 = 1, 7777 = 2.
-\* topProducts returns top-1, top-2 (first:1 -> top-1); me = user 1234 wrote reviews of top-1, top-2;
-\* me.history = Purchase(top-1), Sale(top-2), Purchase(top-3); the review of top-3 is by user 7777.
-Gen_Menu == <<
-  R("{me{reviews{product{name}}}}",                                         <<S(PP, "name", {1, 2})>>),
-  R("{me{reviews{product{price}}}}",                                        <<S(PP, "price", {1, 2})>>),
-  R("{topProducts(first:1){reviews{product{name}}}}",                       <<S(RP, "rp", {1}), S(PP, "name", {1})>>),
-  R("{topProducts{reviews{product{name}}}}",                                <<S(RP, "rp", {1, 2}), S(PP, "name", {1, 2})>>),
-  R("{me{history{... on Sale{product{name}}}}}",                            <<S(PP, "name", {2})>>),
-  R("{me{history{... on Purchase{product{name}}}}}",                        <<S(PP, "name", {1, 3})>>),
-  R("{me{history{... on Purchase{product{price}}}}}",                       <<S(PP, "price", {1, 3})>>),
-  R("{me{history{... on Purchase{product{name}} ... on Sale{product{name}}}}}", <<S(PP, "name", {1, 2, 3})>>),
-  R("{me{history{... on Purchase{product{reviews{author{history{__typename}}}}}}}}", <<S(RP, "rah", {1, 3}), S(AU, "h", {1, 2})>>),
-  R("{topProducts{reviews{author{history{__typename}}}}}",                  <<S(RP, "rah", {1, 2}), S(AU, "h", {1})>>),
-  R("{topProducts(first:1){reviews{product{price}}}}",                      <<S(RP, "rp", {1}), S(PP, "price", {1})>>),
-  R("{me{reviews{product{name price}}}}",                                   <<S(PP, "nameprice", {1, 2})>>),
-  \* me resolved by accounts first: the reviews subgraph is entered through a SINGLE entity fetch (resolve.EntityFetch)
-  R("{me{username reviews{body}}}",                                         <<S(RU, "rb", {1})>>),
-  R("{me{username reviews{product{name}}}}",                                <<S(RU, "rpu", {1}), S(PP, "name", {1, 2})>>),
-  R("{me{username reviews{product{price}}}}",                               <<S(RU, "rpu", {1}), S(PP, "price", {1, 2})>>)
->>
-
-H(dirs) == [dirs |-> dirs, bad |-> FALSE]
-pub == Dir("public", NoArg)
-Gen_Headers == <<
-  H(<<pub, Dir("max-age", 2)>>),
-  H(<<pub>>),
-  H(<<pub, Dir("s-maxage", 1), Dir("max-age", 3)>>),
-  H(<<Dir("max-age", 1), pub, Dir("s-maxage", 3)>>),
-  H(<<pub, Dir("max-age", 1)>>),
-  H(<<pub, Dir("must-revalidate", NoArg), Dir("max-age", 3)>>),
-  H(<<Dir("max-age", 2)>>),
-  H(<<pub, Dir("no-store", NoArg)>>),
-  H(<<pub, Dir("private", NoArg), Dir("max-age", 2)>>),
-  H(<<Dir("no-cache", NoArg), pub, Dir("max-age", 2)>>),
-  H(<<>>),
-  H(<<pub, Dir("max-age", 0)>>),
-  H(<<pub, Dir("max-age", 1), Dir("max-age", 3)>>),
-  H(<<Dir("private", NoArg)>>)
->>
 \* weights for simulation: index sets the generator draws from
 CONSTANTS HeaderDraw,   \* sequence of header indexes (repeats = weight)
           OutcomeDraw,  \* sequence of outcomes (repeats = weight)
@@ -64,16 +18,16 @@ CONSTANTS HeaderDraw,   \* sequence of header indexes (repeats = weight)
           GetDraw,      \* sequence of GetMany results "ok" | "err"
           SetDraw       \* sequence of SetMany results "ok" | "err" | "part"
 
-Gen_HeaderDraw == <<1, 1, 2, 2, 3, 4, 5, 5, 6, 7, 8, 9, 10, 11, 12, 13, 14>>
+Gen_HeaderDraw == <<1, 1, 2, 2, 3, 4, 5, 5, 6, 7, 8, 9, 10, 11, 12, 13, 14, 15>>
 Gen_OutcomeDraw == <<"clean", "clean", "clean", "clean", "clean", "clean", "clean", "clean", "errs", "s500", "s404", "s300", "null1", "dead">>
 \* exhaustive small configuration: storable / default / refused header, clean or erroneous
-Gen_MenuDraw == <<1, 1, 2, 3, 4, 4, 5, 6, 6, 7, 8, 8, 9, 10, 11, 12, 13, 14, 14, 15>>
+Gen_MenuDraw == <<1, 1, 2, 3, 4, 4, 5, 6, 6, 7, 8, 8, 9, 10, 11, 12, 13, 14, 14, 15, 16, 16, 17, 17, 18, 19>>
 Gen_MenuDrawSmall == <<1, 2, 5, 14>>
 Gen_TickDraw == <<0, 0, 0, 0, 1, 1, 2>>
 Gen_TickDrawSmall == <<0, 1>>
 Gen_GetDrawSmall == <<"ok">>
 Gen_SetDrawSmall == <<"ok">>
-Gen_GetDraw == <<"ok", "ok", "ok", "ok", "ok", "ok", "err">>
+Gen_GetDraw == <<"ok", "ok", "ok", "ok", "ok", "ok", "ok", "err", "empty">>
 Gen_SetDraw == <<"ok", "ok", "ok", "ok", "ok", "err", "part">>
 Gen_HeaderDrawSmall == <<1, 5, 9>>
 Gen_OutcomeDrawSmall == <<"clean", "errs">>
